@@ -28,6 +28,18 @@ def apply_patch(d, patch):
     return True, ""
 
 
+class ScratchFacts(dict):
+    """facts of a scratch copy: configurations other than the first are extracted from the same copy on demand"""
+    def __init__(self, repo, init):
+        super().__init__(init)
+        self.repo = repo
+
+    def get(self, config, default=None):
+        if config not in self:
+            self[config] = extract.facts_dir(config, repo=self.repo, quiet=True)
+        return self[config]
+
+
 def run_mutant(patch, props, config="main", keep=False):
     """returns dict prop -> (rc, [new violation dicts]) or raises CheckerError"""
     d = scratch_copy()
@@ -38,7 +50,7 @@ def run_mutant(patch, props, config="main", keep=False):
         facts = extract.facts_dir(config, repo=d, quiet=True)
         out = {}
         for p in props:
-            rc, ctx, new = run_check(p, "quick", facts_override={config: facts}, write_evidence=False, quiet=True)
+            rc, ctx, new = run_check(p, "quick", facts_override=ScratchFacts(d, {config: facts}), write_evidence=False, quiet=True)
             out[p] = (rc, new)
         return out
     finally:
